@@ -821,6 +821,9 @@ CURATED = [
     ("{[#A][#B].[#C]}.{#A=CC[$],#B=[$]C[$],#C=[$]CO}", True, False),
     ("{[#SP4]1.2[#SP4].3[#SP1r]1.[#TC4]23}.{#SP4=OC[$]C[$]O,#SP1r=[$]OC[$]CO}", True, False),
     ("{[#A].[#A][#B]}.{#A=[$]CC[$],#B=[$]O}", True, False),
+    ("{[#A].[#VS]}.{#A=CCO}", True, False),
+    ("{[#A][#B].[#VS]}.{#A=CC[$],#B=[$]O}", True, False),
+    ("{[#A][#B]([#A]).[#VS]}.{#A=[$]C,#B=[$]N([$])[$]}", True, False),
     ("{[#X][#Y].[#Y]}.{#X=[>][#P1][#P2][<],#Y=[<][#Q1][#Q2][>]}", False, False),
     # shared beads (squash operator) at an intermediate level, followed by a further level
     ("{[#A0][#B0]}.{#A0=[#A1a][#A1b][!],#B0=[!][#A1b][#B1b]}.{#A1a=CC[$],#A1b=[$]CO[$],#B1b=[$]CN}", True, True),
